@@ -81,17 +81,17 @@ theorem noWritten_contract : CleanContract NoWritten where
   select := fun db h hc => ebSel_noWritten (select_sel db h) hc
   update := by
     intro db t idx v f tm hc
-    obtain ⟨db0, he, h1 | h1 | ⟨cls, m, h1⟩⟩ := update_spec db t idx v f tm
+    obtain ⟨db0, he, h1 | h1 | ⟨t', idx', cls, m, dv, h1⟩⟩ := update_spec_enc db t idx v f tm
     · rw [h1]; exact noWritten_of_events he.1 hc
     · rw [h1]; exact noWritten_of_events he.1 hc
     · have hc0 : NoWritten db0 := noWritten_of_events he.1 hc
       rw [h1]
-      show NoWritten (db0.insert idx cls t m (defaultEventVar t)).1
-      rcases insert_cases db0 idx cls t m (defaultEventVar t) with ⟨_, hi⟩ | ⟨_, d, rest, _, hrem, hi⟩ | ⟨_, _, hi⟩
+      show NoWritten (db0.insert idx' cls t' m dv).1
+      rcases insert_cases db0 idx' cls t' m dv with ⟨_, hi⟩ | ⟨_, d, rest, _, hrem, hi⟩ | ⟨_, _, hi⟩
       · rw [hi]; exact hc0
-      · have hev : (db0.insert idx cls t m (defaultEventVar t)).1.events =
-            rest ++ [mkRec db0 idx cls t m (defaultEventVar t)] := by rw [hi]
-        obtain ⟨_, pre, post, hl, hr, _⟩ := removeFirstTy_spec t db0.events d rest hrem
+      · have hev : (db0.insert idx' cls t' m dv).1.events =
+            rest ++ [mkRec db0 idx' cls t' m dv] := by rw [hi]
+        obtain ⟨_, pre, post, hl, hr, _⟩ := removeFirstTy_spec t' db0.events d rest hrem
         intro r hmem
         rw [hev] at hmem
         rcases List.mem_append.mp hmem with hm | hm
@@ -103,8 +103,8 @@ theorem noWritten_contract : CleanContract NoWritten where
           · exact List.mem_append_right _ (List.mem_cons_of_mem _ hm)
         · rw [List.mem_singleton.mp hm]
           simp [mkRec]
-      · have hev : (db0.insert idx cls t m (defaultEventVar t)).1.events =
-            db0.events ++ [mkRec db0 idx cls t m (defaultEventVar t)] := by rw [hi]
+      · have hev : (db0.insert idx' cls t' m dv).1.events =
+            db0.events ++ [mkRec db0 idx' cls t' m dv] := by rw [hi]
         intro r hmem
         rw [hev] at hmem
         rcases List.mem_append.mp hmem with hm | hm
